@@ -43,7 +43,7 @@ CHECKS.update({
   category="exploration",
   technique="bounded exhaustive enumeration of conflict families and tiny grammars x k=1..8; all token strings through the table interpreter (incl. deep-lookahead loop) vs CFG oracle",
   text="A family of grammars whose reduce/reduce conflicts need 2..4 tokens (S: A u x | B u y, A: w, B: w for all words w,u over {a,b}; variants with a shared suffix nonterminal, a nullable symbol in the suffix, two conflicts sharing the lookahead automaton; eoi and no-eoi inputs) and every reduced grammar of the tiny scope are compiled with lalr(k), k=1..8 (2,3 for the tiny scope); for every successful compile every token string <= L (6/7) is parsed with the interpreter (transcription of parseFunc + resolveDeepLA) and accept/reject compared with the CFG oracle; UsedLADepth <= k.",
-  note="Compile errors are outside the property (it constrains successful compiles). Deep-lookahead decoding is a transcription of the template (C01 Layer B validates the interpreter on LALR(1) grammars; a Layer-B run for lalr(k) is part of the thorough tier when built).",
+  note="Compile errors are outside the property (it constrains successful compiles). Layer B: family grammars whose compile uses deep lookahead (60 quick / 1,500 thorough) are generated with ':: parser lalr(k)', built and run on every string <= 5: verdict vs the CFG oracle and reduction sequence vs the interpreter (binds the transcription of resolveDeepLA to the template).",
   design="§5.C07"),
  "C08": dict(
   category="exploration",
